@@ -19,7 +19,7 @@ theorem typed_ascii_returned_emacs (s : List Nat) (hs : ∀ b ∈ s, printable b
     (chunks : List (List Nat)) (hc : chunks.flatten = s ++ [13]) (om em : Bool) :
     run (s.length + 1 + chunks.length + 1) chunks (sh0 Gen.emacs om em) = .ok (some s) := by
   have g : Good (sh0 Gen.emacs om em) [] :=
-    ⟨emacs_tableOK _ rfl (by simp [sh0]) (by simp [sh0]), rfl, rfl, rfl, rfl, rfl⟩
+    ⟨emacs_tableOK _ rfl (by simp [sh0]) (by simp [sh0]), rfl, rfl, rfl, rfl, rfl, rfl, rfl⟩
   have := typed_ascii_returned (s.length + 1 + chunks.length + 1) chunks _ [] s g hs
     (by simpa [sh0] using hc) (by simp [sh0, hc])
   simpa using this
@@ -29,7 +29,7 @@ theorem typed_ascii_returned_viins (s : List Nat) (hs : ∀ b ∈ s, printable b
     (chunks : List (List Nat)) (hc : chunks.flatten = s ++ [13]) (om em : Bool) :
     run (s.length + 1 + chunks.length + 1) chunks (sh0 Gen.vi_insert om em) = .ok (some s) := by
   have g : Good (sh0 Gen.vi_insert om em) [] :=
-    ⟨viins_tableOK _ rfl (by simp [sh0]) (by simp [sh0]), rfl, rfl, rfl, rfl, rfl⟩
+    ⟨viins_tableOK _ rfl (by simp [sh0]) (by simp [sh0]), rfl, rfl, rfl, rfl, rfl, rfl, rfl⟩
   have := typed_ascii_returned (s.length + 1 + chunks.length + 1) chunks _ [] s g hs
     (by simpa [sh0] using hc) (by simp [sh0, hc])
   simpa using this
